@@ -50,6 +50,8 @@ def check(ctx):
 from ..selftest import V  # noqa: E402
 
 VARIANTS = [
+    V('constraint-list-shared-through-helper', 'graph/adsg.py',
+      [("        dec_con_map_copy = self._choice_constraints.copy()\n", "        dec_con_map_copy = self._choice_constraints\n")], key='A11s'),
     V('status-array-mutated-in-place', 'graph/adsg.py',
       [("        status_array = self._status_array.copy()\n\n        for choice_node, edges in choice_node_edges:", "        status_array = self._status_array\n\n        for choice_node, edges in choice_node_edges:")],
       key='status_array'),
